@@ -12,11 +12,11 @@ from ..normal import ext_name, strip_cast
 from ..report import Result
 from ..terms import NONE, T, const, contains, deps, mk, uncopy
 from .c16 import conversion_obligations
-from .common import txt
+from .common import txt, wrapper_env_attr
 
 EXPLANATION = (
     "Decided on the value-flow graph of jumanji/wrappers.py with the wrapped environment abstract: (R1) key schedule -- "
-    "both adapters' reset splits self._key once, seeds the inner reset with one half and stores the OTHER half back; "
+    "both adapters' reset splits the adapter key once, seeds the inner reset with one half and stores the OTHER half back; "
     "seed(s) stores PRNGKey(s); gym reset(seed=...) calls seed before the split; (R2) state threading -- self._state is "
     "assigned from the inner reset/step result and is the state argument of the next inner step; (R3) relay fidelity -- "
     "dm_env step maps step_type/reward/discount/observation field to field and dm_env reset is restart(observation = "
@@ -66,24 +66,57 @@ def run_method(tree, ci: ClassInfo, name: str, attrs: Dict[str, T]):
     return r, stores, params, f, v
 
 
+def mutable_attrs(ci: ClassInfo) -> set:
+    """self attributes assigned by any method other than __init__ (per-episode state such as the key and the state)."""
+    out = set()
+    for name, f in ci.methods.items():
+        if name == "__init__":
+            continue
+        for n in ast.walk(f.node):
+            tg = []
+            if isinstance(n, ast.Assign):
+                tg = n.targets
+            elif isinstance(n, (ast.AugAssign, ast.AnnAssign)):
+                tg = [n.target]
+            for t in tg:
+                for x in ast.walk(t):
+                    if isinstance(x, ast.Attribute) and isinstance(x.value, ast.Name) and x.value.id == "self":
+                        out.add(x.attr)
+    return out
+
+
+def fixed_attrs(ci: ClassInfo, ia: Dict[str, List[T]], env_attr: str) -> Dict[str, T]:
+    """Instance attributes fixed by __init__ (never re-assigned), by whatever name -- the wrapped environment excepted."""
+    mut = mutable_attrs(ci)
+    return {k: v[-1] for k, v in ia.items() if k not in mut and k != env_attr}
+
+
+def key_attr(stores: Dict[str, List[T]]) -> Optional[str]:
+    """The attribute that receives a projection of jax.random.split in this method (the adapter's key, by role)."""
+    names = [k for k, vs in stores.items() if any(v.kind == "proj" and ext_name(v.args[0]) == "jax.random.split" for v in vs)]
+    return names[0] if len(names) == 1 else None
+
+
 def key_schedule(res: Result, fn: str, f, stores, inner_reset_call: Optional[T], self_t: T):
     site = f.loc()
-    ks = stores.get("_key", [])
+    K = key_attr(stores)
+    ks = stores.get(K, []) if K is not None else []
     split_stores = [k for k in ks if k.kind == "proj" and ext_name(k.args[0]) == "jax.random.split"]
     ok = False
-    why = f"stores to self._key: {[txt(k, 4, 60) for k in ks]}"
+    why = f"key attribute {K}: stores {[txt(k, 4, 60) for k in ks]}"
     if len(split_stores) == 1 and inner_reset_call is not None and inner_reset_call.args[1]:
         stored = split_stores[0]
         used = inner_reset_call.args[1][0]
         sp = stored.args[0]
-        src_ok = sp.args[1] and sp.args[1][0] is mk("attr", self_t, "_key") and (len(sp.args[1]) == 1 or (len(sp.args[1]) == 2 and sp.args[1][1] is const(2)))
+        src_ok = sp.args[1] and sp.args[1][0] is mk("attr", self_t, K) and (len(sp.args[1]) == 1 or (len(sp.args[1]) == 2 and sp.args[1][1] is const(2)))
         ok = bool(src_ok and used.kind == "proj" and used.args[0] is sp and used.args[1] != stored.args[1])
         why = f"reset key {txt(used, 4, 60)}; stored back {txt(stored, 4, 60)}"
-        if used is mk("attr", self_t, "_key"):
+        if used is mk("attr", self_t, K):
             why += " -- the adapter key itself is reused: every reset replays the same episode"
         elif used.kind == "proj" and used.args[0] is sp and used.args[1] == stored.args[1]:
             why += " -- the SAME half is used and stored: consecutive episodes are correlated"
-    res.add("C15.R1", site, fn, "reset splits self._key once: one half seeds the inner reset, the other is stored back", ok, why)
+    res.add("C15.R1", site, fn, "reset splits the adapter key once: one half seeds the inner reset, the other is stored back", ok, why)
+    return K
 
 
 def check(tier: str) -> Result:
@@ -96,23 +129,24 @@ def check(tier: str) -> Result:
     ci = tree.classes[W + "JumanjiToDMEnvWrapper"]
     self_t = mk("self", ci.qual)
     _, ia, ip = init_attrs(tree, ci)
-    E = mk("attr", self_t, "_env")
-    res.add("C15.R2", tree.find_method(ci, "__init__").loc(), "wrappers.JumanjiToDMEnvWrapper.__init__", "self._env is the wrapped environment", [uncopy(x) for x in ia.get("_env", [])] == [ip["env"]], f"{[txt(x) for x in ia.get('_env', [])]}")
-    attrs = {k: v[-1] for k, v in ia.items() if k in ("_jitted_reset", "_jitted_step")}
-    for nm, meth in (("_jitted_reset", "reset"), ("_jitted_step", "step")):
-        v = attrs.get(nm)
-        ok = v is not None and uncopy(v) is mk("attr", mk("attr", self_t, "_env"), meth) or (v is not None and uncopy(v) is mk("attr", E, meth))
-        res.add("C15.R2", tree.find_method(ci, "__init__").loc(), "wrappers.JumanjiToDMEnvWrapper.__init__", f"self.{nm} is the (jitted) inner {meth}", bool(ok), txt(v, 4, 80) if v is not None else "not assigned")
+    EA = wrapper_env_attr(tree)
+    E = mk("attr", self_t, EA)
+    res.add("C15.R2", tree.find_method(ci, "__init__").loc(), "wrappers.JumanjiToDMEnvWrapper.__init__", "the wrapped environment is stored once", [uncopy(x) for x in ia.get(EA, [])] == [ip["env"]], f"{[txt(x) for x in ia.get(EA, [])]}")
+    attrs = fixed_attrs(ci, ia, EA)
+    for meth in ("reset", "step"):
+        vs = [k for k, v in attrs.items() if uncopy(v) is mk("attr", E, meth)]
+        res.add("C15.R2", tree.find_method(ci, "__init__").loc(), "wrappers.JumanjiToDMEnvWrapper.__init__", f"the (jitted) inner {meth} is kept in an attribute", len(vs) >= 1, f"attributes {vs}")
     r, st, pr, f, _ = run_method(tree, ci, "reset", attrs)
     calls = [n for n in deps(r) if n.kind == "call" and n.args[0].kind == "attr" and n.args[0].args[1] == "reset" and n.args[0].args[0] is E]
     rc = calls[0] if len(calls) == 1 else None
     key_schedule(res, "wrappers.JumanjiToDMEnvWrapper.reset", f, st, rc, self_t)
+    S = next((k for k, vs in st.items() if rc is not None and any(v is mk("proj", rc, 0) for v in vs)), None)
     exp = mk("call", mk("ext", "dm_env.restart"), (), (("observation", mk("attr", mk("proj", rc, 1), "observation")),)) if rc is not None else None
     res.add("C15.R3", f.loc(), "wrappers.JumanjiToDMEnvWrapper.reset", "returns dm_env.restart(observation = inner reset observation)", exp is not None and r is exp, txt(r, 6, 200))
-    ss = st.get("_state", [])
-    res.add("C15.R2", f.loc(), "wrappers.JumanjiToDMEnvWrapper.reset", "self._state <- state returned by the inner reset", rc is not None and ss == [mk("proj", rc, 0)], f"{[txt(s, 4, 80) for s in ss]}")
+    ss = st.get(S, []) if S is not None else []
+    res.add("C15.R2", f.loc(), "wrappers.JumanjiToDMEnvWrapper.reset", "the state attribute <- state returned by the inner reset", rc is not None and ss == [mk("proj", rc, 0)], f"attribute {S}: {[txt(s_, 4, 80) for s_ in ss]}")
     r, st, pr, f, _ = run_method(tree, ci, "step", attrs)
-    sc = mk("call", mk("attr", E, "step"), (mk("attr", self_t, "_state"), pr["action"]), ())
+    sc = mk("call", mk("attr", E, "step"), (mk("attr", self_t, S or "_state"), pr["action"]), ())
     ts = mk("proj", sc, 1)
     want = {k: mk("attr", ts, k) for k in ("step_type", "reward", "discount", "observation")}
     ok = r.kind == "call" and ext_name(r) == "dm_env.TimeStep" and not r.args[1] and dict(r.args[2]) == want
@@ -122,28 +156,30 @@ def check(tier: str) -> Result:
         bad = {k: txt(got.get(k), 3, 50) for k in want if got.get(k) is not want[k]}
         why = f"mis-wired {bad}" if bad else txt(r, 5, 200)
     res.add("C15.R3", f.loc(), "wrappers.JumanjiToDMEnvWrapper.step", "dm_env.TimeStep(step_type, reward, discount, observation) taken field-to-field from the inner step on self._state", ok, why)
-    ss = st.get("_state", [])
-    res.add("C15.R2", f.loc(), "wrappers.JumanjiToDMEnvWrapper.step", "self._state <- state returned by the inner step", ss == [mk("proj", sc, 0)], f"{[txt(s, 4, 80) for s in ss]}")
+    ss = st.get(S, []) if S is not None else []
+    res.add("C15.R2", f.loc(), "wrappers.JumanjiToDMEnvWrapper.step", "the state attribute <- state returned by the inner step", ss == [mk("proj", sc, 0)], f"attribute {S}: {[txt(s_, 4, 80) for s_ in ss]}")
     # ================================================================== gym adapter
     ci = tree.classes[W + "JumanjiToGymWrapper"]
     self_t = mk("self", ci.qual)
     _, ia, ip = init_attrs(tree, ci)
-    E = mk("attr", self_t, "_env")
-    res.add("C15.R2", tree.find_method(ci, "__init__").loc(), "wrappers.JumanjiToGymWrapper.__init__", "self._env is the wrapped environment", [uncopy(x) for x in ia.get("_env", [])] == [ip["env"]], f"{[txt(x) for x in ia.get('_env', [])]}")
-    attrs = {k: v[-1] for k, v in ia.items() if k in ("_reset", "_step", "backend")}
-    k0 = ia.get("_key", [])
-    ok = len(k0) == 1 and ext_name(k0[0]) == "jax.random.PRNGKey" and k0[0].args[1] == (ip["seed"],)
-    res.add("C15.R1", tree.find_method(ci, "__init__").loc(), "wrappers.JumanjiToGymWrapper.__init__", "initial key is PRNGKey(seed)", ok, f"{[txt(k, 3, 60) for k in k0]}")
-    r, st, pr, f, _ = run_method(tree, ci, "seed", attrs)
-    ks = st.get("_key", [])
-    ok = len(ks) == 1 and ext_name(ks[0]) == "jax.random.PRNGKey" and ks[0].args[1] == (pr["seed"],)
-    res.add("C15.R1", f.loc(), "wrappers.JumanjiToGymWrapper.seed", "seed(s) stores PRNGKey(s)", ok, f"{[txt(k, 3, 60) for k in ks]}")
+    E = mk("attr", self_t, EA)
+    res.add("C15.R2", tree.find_method(ci, "__init__").loc(), "wrappers.JumanjiToGymWrapper.__init__", "the wrapped environment is stored once", [uncopy(x) for x in ia.get(EA, [])] == [ip["env"]], f"{[txt(x) for x in ia.get(EA, [])]}")
+    attrs = fixed_attrs(ci, ia, EA)
     r, st, pr, f, _ = run_method(tree, ci, "reset", attrs)
     calls = [n for n in deps(r) if n.kind == "call" and n.args[0].kind == "attr" and n.args[0].args[1] == "reset" and n.args[0].args[0] is E]
     rc = calls[0] if len(calls) == 1 else None
-    st2 = dict(st)
-    st2["_key"] = [k for k in st.get("_key", []) if ext_name(k) != "jax.random.PRNGKey"]
-    key_schedule(res, "wrappers.JumanjiToGymWrapper.reset", f, st2, rc, self_t)
+    st2 = {k: [x for x in vs if ext_name(x) != "jax.random.PRNGKey"] for k, vs in st.items()}
+    K = key_schedule(res, "wrappers.JumanjiToGymWrapper.reset", f, st2, rc, self_t)
+    reset_facts = (r, st, pr, f)
+    k0 = ia.get(K, []) if K is not None else []
+    ok = len(k0) == 1 and ext_name(k0[0]) == "jax.random.PRNGKey" and k0[0].args[1] == (ip["seed"],)
+    res.add("C15.R1", tree.find_method(ci, "__init__").loc(), "wrappers.JumanjiToGymWrapper.__init__", "initial key is PRNGKey(seed)", ok, f"key attribute {K}: {[txt(k, 3, 60) for k in k0]}")
+    r, st, pr, f, _ = run_method(tree, ci, "seed", attrs)
+    ks = st.get(K, []) if K is not None else []
+    ok = len(ks) == 1 and ext_name(ks[0]) == "jax.random.PRNGKey" and ks[0].args[1] == (pr["seed"],)
+    res.add("C15.R1", f.loc(), "wrappers.JumanjiToGymWrapper.seed", "seed(s) stores PRNGKey(s)", ok, f"key attribute {K}: {[txt(k, 3, 60) for k in ks]}")
+    r, st, pr, f = reset_facts
+    S = next((k for k, vs in st.items() if rc is not None and any(v is mk("proj", rc, 0) for v in vs)), None)
     # seed before split (statement order)
     body = f.node.body
     i_seed = i_split = None
@@ -163,8 +199,8 @@ def check(tier: str) -> Result:
             (g.kind == "un" and g.args[0] == "not" and g.args[1].kind == "cmp" and g.args[1].args[0] == "is" and g.args[1].args[1] is seedp and g.args[1].args[2] is NONE)]
     res.add("C15.R1", f.loc(), "wrappers.JumanjiToGymWrapper.reset", "every given seed re-seeds (guard is `seed is not None`, not truthiness)", bool(good) and len(guards) == len(good),
             f"guard(s) {[txt(g, 3, 50) for g in guards]}" + ("" if good and len(guards) == len(good) else " -- a truthiness test ignores seed=0"))
-    ss = st.get("_state", [])
-    res.add("C15.R2", f.loc(), "wrappers.JumanjiToGymWrapper.reset", "self._state <- state returned by the inner reset", rc is not None and ss == [mk("proj", rc, 0)], f"{[txt(s, 4, 80) for s in ss]}")
+    ss = st.get(S, []) if S is not None else []
+    res.add("C15.R2", f.loc(), "wrappers.JumanjiToGymWrapper.reset", "the state attribute <- state returned by the inner reset", rc is not None and ss == [mk("proj", rc, 0)], f"attribute {S}: {[txt(s_, 4, 80) for s_ in ss]}")
     if rc is not None and r.kind == "tuple" and len(r.args[0]) == 2:
         obs, info = r.args[0]
         tsr = mk("proj", rc, 1)
@@ -177,13 +213,13 @@ def check(tier: str) -> Result:
     r, st, pr, f, _ = run_method(tree, ci, "step", attrs)
     calls = [n for n in deps(r) if n.kind == "call" and n.args[0].kind == "attr" and n.args[0].args[1] == "step" and n.args[0].args[0] is E]
     sc = calls[0] if len(calls) == 1 else None
-    ok = sc is not None and len(sc.args[1]) == 2 and sc.args[1][0] is mk("attr", self_t, "_state") and strip_cast(sc.args[1][1]) is pr["action"]
-    res.add("C15.R2", f.loc(), "wrappers.JumanjiToGymWrapper.step", "the inner step runs on self._state and the given action", ok, txt(sc, 4, 120) if sc is not None else "no single inner step call")
+    ok = sc is not None and len(sc.args[1]) == 2 and S is not None and sc.args[1][0] is mk("attr", self_t, S) and strip_cast(sc.args[1][1]) is pr["action"]
+    res.add("C15.R2", f.loc(), "wrappers.JumanjiToGymWrapper.step", "the inner step runs on the stored state and the given action", ok, txt(sc, 4, 120) if sc is not None else "no single inner step call")
     if sc is not None and r.kind == "tuple" and len(r.args[0]) == 5:
         ts = mk("proj", sc, 1)
         obs, rew, term, trunc, info = r.args[0]
-        ss = st.get("_state", [])
-        res.add("C15.R2", f.loc(), "wrappers.JumanjiToGymWrapper.step", "self._state <- state returned by the inner step", ss == [mk("proj", sc, 0)], f"{[txt(s, 4, 80) for s in ss]}")
+        ss = st.get(S, []) if S is not None else []
+        res.add("C15.R2", f.loc(), "wrappers.JumanjiToGymWrapper.step", "the state attribute <- state returned by the inner step", ss == [mk("proj", sc, 0)], f"attribute {S}: {[txt(s_, 4, 80) for s_ in ss]}")
         ok = contains(obs, mk("attr", ts, "observation")) and not any(contains(obs, mk("attr", ts, x)) for x in ("reward", "discount", "extras", "step_type"))
         res.add("C15.R3", f.loc(), "wrappers.JumanjiToGymWrapper.step", "observation is converted from the inner observation only", ok, txt(obs, 3, 120))
         res.add("C15.R3", f.loc(), "wrappers.JumanjiToGymWrapper.step", "reward is the inner reward", strip_cast(rew) is mk("attr", ts, "reward"), txt(rew, 4, 100))
@@ -214,7 +250,7 @@ def check(tier: str) -> Result:
     ci = tree.classes[W + "MultiToSingleWrapper"]
     self_t = mk("self", ci.qual)
     _, ia, ip = init_attrs(tree, ci)
-    E = mk("attr", self_t, "_env")
+    E = mk("attr", self_t, EA)
     init = ci.methods.get("__init__")
     dflt = {}
     a = init.node.args
@@ -223,10 +259,11 @@ def check(tier: str) -> Result:
         dflt[nm] = tree.resolve_expr(ci.module, d)
     res.add("C15.R3", init.loc(), "wrappers.MultiToSingleWrapper.__init__", "default aggregators are jnp.sum (reward) and jnp.max (discount)",
             dflt.get("reward_aggregator") == "jax.numpy.sum" and dflt.get("discount_aggregator") == "jax.numpy.max", f"{dflt}")
-    ok = [uncopy(x) for x in ia.get("_reward_aggregator", [])] == [ip["reward_aggregator"]] and [uncopy(x) for x in ia.get("_discount_aggregator", [])] == [ip["discount_aggregator"]]
-    res.add("C15.R3", init.loc(), "wrappers.MultiToSingleWrapper.__init__", "aggregator parameters are stored under their own names (not crossed)", ok,
-            f"_reward_aggregator <- {[txt(x) for x in ia.get('_reward_aggregator', [])]}, _discount_aggregator <- {[txt(x) for x in ia.get('_discount_aggregator', [])]}")
-    attrs = {"_reward_aggregator": ip["reward_aggregator"], "_discount_aggregator": ip["discount_aggregator"]}
+    ra = [k for k, v in ia.items() if [uncopy(x) for x in v] == [ip["reward_aggregator"]]]
+    da = [k for k, v in ia.items() if [uncopy(x) for x in v] == [ip["discount_aggregator"]]]
+    res.add("C15.R3", init.loc(), "wrappers.MultiToSingleWrapper.__init__", "each aggregator parameter is stored in its own attribute (which one reset/step apply to which field is decided below)",
+            len(ra) == 1 and len(da) == 1 and ra != da, f"reward aggregator -> {ra}, discount aggregator -> {da}")
+    attrs = fixed_attrs(ci, ia, EA)
     for meth in ("reset", "step"):
         r, st, pr, f, _ = run_method(tree, ci, meth, attrs)
         args = tuple(pr[p] for p in f.params[1:])
